@@ -192,7 +192,7 @@ func (p *Prog) computeFuncAliases() {
 
 // GenFuncTable renders the function table of the loaded programs (all variants) as Go source.
 func GenFuncTable(progs []*Prog) string {
-	rows := map[string][3]string{}
+	rows := map[string][4]string{}
 	for _, p := range progs {
 		for _, f := range p.srcFuncs {
 			pkg := ""
@@ -201,7 +201,7 @@ func GenFuncTable(progs []*Prog) string {
 					pkg = g.Pkg.Pkg.Path()
 				}
 			}
-			rows[f.String()] = [3]string{pkg, recvName(f), sigString(f)}
+			rows[f.String()] = [4]string{pkg, recvName(f), sigString(f), paramString(f)}
 		}
 	}
 	var keys []string
@@ -210,11 +210,172 @@ func GenFuncTable(progs []*Prog) string {
 	}
 	sort.Strings(keys)
 	var b strings.Builder
-	b.WriteString("\n// FuncTable: module function (f.String()) -> (package, receiver type, signature) of the reviewed tree, all build\n// variants (see funccanon.go).\nvar FuncTable = map[string][3]string{\n")
+	b.WriteString("\n// FuncTable: module function (f.String()) -> (package, receiver type, signature) of the reviewed tree, all build\n// variants (see funccanon.go).\nvar FuncTable = map[string][4]string{\n")
 	for _, k := range keys {
 		r := rows[k]
-		fmt.Fprintf(&b, "\t%q: {%q, %q, %q},\n", k, r[0], r[1], r[2])
+		fmt.Fprintf(&b, "\t%q: {%q, %q, %q, %q},\n", k, r[0], r[1], r[2], r[3])
 	}
 	b.WriteString("}\n")
 	return b.String()
+}
+
+func paramString(f *ssa.Function) string {
+	var parts []string
+	for _, p := range f.Params {
+		parts = append(parts, p.Name()+":"+types.TypeString(p.Type(), nil))
+	}
+	return strings.Join(parts, ";")
+}
+
+var paramCanonMemo = map[*ssa.Function]map[*ssa.Parameter]string{}
+
+// CanonParamName: the name under which the reviewed tree knows parameter p (receiver included): a parameter whose name
+// the recorded function does not have is identified with the one recorded parameter of its type whose name is gone.
+func CanonParamName(p *ssa.Parameter) string {
+	f := p.Parent()
+	if f == nil {
+		return p.Name()
+	}
+	m, ok := paramCanonMemo[f]
+	if !ok {
+		m = map[*ssa.Parameter]string{}
+		paramCanonMemo[f] = m
+		if info, have := FuncTable[canonString(f)]; have && info[3] != "" {
+			type nt struct{ n, t string }
+			var rec []nt
+			recNames := map[string]bool{}
+			for _, part := range strings.Split(info[3], ";") {
+				if i := strings.Index(part, ":"); i >= 0 {
+					rec = append(rec, nt{part[:i], part[i+1:]})
+					recNames[part[:i]] = true
+				}
+			}
+			curNames := map[string]bool{}
+			for _, q := range f.Params {
+				curNames[q.Name()] = true
+			}
+			missingByType := map[string][]string{}
+			for _, r := range rec {
+				if !curNames[r.n] {
+					missingByType[r.t] = append(missingByType[r.t], r.n)
+				}
+			}
+			newByType := map[string][]*ssa.Parameter{}
+			for _, q := range f.Params {
+				if !recNames[q.Name()] {
+					t := types.TypeString(q.Type(), nil)
+					newByType[t] = append(newByType[t], q)
+				}
+			}
+			for t, miss := range missingByType {
+				if len(miss) == 1 && len(newByType[t]) == 1 {
+					m[newByType[t][0]] = miss[0]
+				}
+			}
+		}
+	}
+	if c, ok := m[p]; ok {
+		return c
+	}
+	return p.Name()
+}
+
+// CanonName: the function's own (last) name as the reviewed tree knows it.
+func CanonName(f *ssa.Function) string {
+	s := canonString(f)
+	if s == f.String() {
+		return f.Name()
+	}
+	// "(*pkg/path.T).name$1" / "pkg/path.name"
+	if i := strings.LastIndex(s, ")."); i >= 0 {
+		return s[i+2:]
+	}
+	if i := strings.LastIndex(s, "."); i >= 0 {
+		return s[i+1:]
+	}
+	return s
+}
+
+// normaliseParamOrder: a function whose parameters are a permutation of the recorded ones (same names and types, other
+// order) is put back into the recorded order — its Params and the Args of every static call of it are permuted
+// together. Nothing is executed, so this only restores the positions the rules index by.
+func (p *Prog) normaliseParamOrder(all map[*ssa.Function]bool) {
+	perms := map[*ssa.Function][]int{} // new position i takes old position perm[i]
+	for _, f := range p.srcFuncs {
+		info, ok := FuncTable[canonString(f)]
+		if !ok || info[3] == "" {
+			continue
+		}
+		rec := strings.Split(info[3], ";")
+		if len(rec) != len(f.Params) {
+			continue
+		}
+		cur := make([]string, len(f.Params))
+		same := true
+		for i, q := range f.Params {
+			cur[i] = CanonParamName(q) + ":" + types.TypeString(q.Type(), nil)
+			if cur[i] != rec[i] {
+				same = false
+			}
+		}
+		if same {
+			continue
+		}
+		perm := make([]int, len(rec))
+		used := make([]bool, len(cur))
+		okPerm := true
+		for i, r := range rec {
+			perm[i] = -1
+			for j, c := range cur {
+				if !used[j] && c == r {
+					perm[i], used[j] = j, true
+					break
+				}
+			}
+			if perm[i] < 0 {
+				okPerm = false
+			}
+		}
+		if !okPerm {
+			continue
+		}
+		if f.Signature.Recv() != nil && perm[0] != 0 {
+			continue
+		}
+		perms[f] = perm
+	}
+	if len(perms) == 0 {
+		return
+	}
+	for f, perm := range perms {
+		np := make([]*ssa.Parameter, len(perm))
+		for i, j := range perm {
+			np[i] = f.Params[j]
+		}
+		copy(f.Params, np)
+	}
+	for g := range all {
+		for _, b := range g.Blocks {
+			for _, in := range b.Instrs {
+				ci, ok := in.(ssa.CallInstruction)
+				if !ok {
+					continue
+				}
+				callee := StaticCallee(ci)
+				perm, ok := perms[callee]
+				if !ok {
+					continue
+				}
+				cc := ci.Common()
+				if len(cc.Args) != len(perm) {
+					continue
+				}
+				na := make([]ssa.Value, len(perm))
+				for i, j := range perm {
+					na[i] = cc.Args[j]
+				}
+				copy(cc.Args, na)
+			}
+		}
+	}
 }
